@@ -23,11 +23,17 @@ const TEXTS: &[(&str, Option<&str>)] = &[
     ("jsx h", None),
     ("see the @jsx, annotation", None),
     ("@jsx\th", Some("h")),
+    // several annotations in one (block) comment: only the `@jsx <name>` line counts
+    ("@jsxRuntime classic\n * @jsx h", Some("h")),
+    ("@jsx h\n * @jsxFrag F\n * @jsxImportSource vue", Some("h")),
+    ("@jsx\n * @jsx h", Some("h")),
 ];
 const STYLES: &[&str] = &["block", "jsdoc", "line", "jsdoc-multiline"];
 const PLACEMENTS: &[&str] = &["head", "before-stmt-1", "before-stmt-2", "inside-function", "none"];
 
 fn render_comment(style: &str, text: &str) -> String {
+    // multi-line texts only make sense in block comments
+    let style = if text.contains('\n') && style == "line" { "jsdoc-multiline" } else { style };
     match style {
         "block" => format!("/* {text} */"),
         "jsdoc" => format!("/** {text} */"),
